@@ -53,6 +53,9 @@ var c02F = []int{64, 100, 257, 1000, 4096}
 // genBigPacket makes a packet whose Size() exceeds F: payload k*F + r, r in [-80, 80].
 func genBigPacket(r *Rng, F int, dev device.ID) *com.Packet {
 	p := &com.Packet{ID: uint8(0x10 + r.Intn(0xE0)), Job: uint16(2 + r.Intn(65000)), Device: dev}
+	if r.Chance(12) {
+		p.Job = 0 // queued without a Job number: write() gives it one before splitting
+	}
 	if r.Chance(40) {
 		p.Flags = com.Flag([]uint64{0x8, 0x10, 0x40, 0x100, 0x118, 0x8000}[r.Intn(6)]) // Error, Channel, Oneshot?, Crypt ...
 		if p.Flags&com.FlagOneshot != 0 {
@@ -139,7 +142,7 @@ func runC02(c *Ctx) {
 				switch {
 				case len(f.Payload()) > F:
 					bad = "fragment-larger-than-limit"
-				case f.ID != p.ID || f.Job != p.Job:
+				case f.ID != p.ID || (fz.p.Job != 0 && f.Job != fz.p.Job) || f.Job != frs[0].Job || f.Job == 0:
 					bad = "fragment-id-job"
 				case int(f.Flags.Len()) != len(frs):
 					bad = "fragment-len-field"
@@ -159,7 +162,7 @@ func runC02(c *Ctx) {
 			if bad != "" {
 				c.Fail("split", "split:"+bad, fmt.Sprintf("F=%d size=%d: %s", F, size, bad), map[string]interface{}{"F": F, "packet": fz.tok})
 			}
-			c.Op(fmt.Sprintf("split %d %d %s", F, g, fz.tok), strings.Join(toks, " "))
+			c.Op(fmt.Sprintf("split %d %d %d %s", F, g, frs[0].Job, fz.tok), strings.Join(toks, " "))
 			c.Count(fmt.Sprintf("frags:%d", minInt(len(frs), 6)))
 			if len(frs) > 0 && len(frs[len(frs)-1].Payload()) == 0 {
 				c.Count("empty-last-fragment")
@@ -268,7 +271,8 @@ func runC02(c *Ctx) {
 					continue
 				}
 				v := delivered[gi][0]
-				if d := eqFrozen(fc.orig, v); d != "" && d != "flags" && d != "tags" && d != "tagcount" {
+				if d := eqFrozen(fc.orig, v); d != "" && d != "flags" && d != "tags" && d != "tagcount" &&
+					!(d == "job" && fc.orig.p.Job == 0 && v.Job == fc.frags[0].Job && v.Job != 0) { // a packet queued without a Job number arrives with the one write() drew
 					c.Fail("reassemble", "reassemble:field:"+d, "reassembled packet differs from the original in "+d, in)
 				}
 				if uint16(v.Flags) != uint16(fc.orig.p.Flags) || v.Flags>>16 != 0 {
@@ -323,6 +327,9 @@ func runC02(c *Ctx) {
 		for gi := 0; gi < ng; gi++ {
 			p := genBigPacket(r, F, dev)
 			p.Job = uint16(100 + gi) // distinct jobs: the groups are independent packets
+			if gi == 0 && r.Chance(25) {
+				p.Job = 0 // a packet queued without a Job number (Session.Write of a user packet)
+			}
 			origs = append(origs, freeze(p))
 			if err := snd.VerifC02Write(true, p); err != nil {
 				return
@@ -399,10 +406,10 @@ func runC02(c *Ctx) {
 			}
 			for _, v := range msgr.Evs[before:] {
 				for gi := range origs {
-					if v.Job == origs[gi].p.Job {
+					if v.Job == origs[gi].p.Job || (origs[gi].p.Job == 0 && v.ID == origs[gi].p.ID && v.Job != 101 && v.Job != 102 && len(v.Payload()) == len(origs[gi].pay)) {
 						delivered[gi]++
 						deliveredPk = append(deliveredPk, v)
-						if d := eqFrozen(origs[gi], v); d != "" && d != "flags" && d != "tags" && d != "tagcount" {
+						if d := eqFrozen(origs[gi], v); d != "" && d != "flags" && d != "tags" && d != "tagcount" && !(d == "job" && origs[gi].p.Job == 0 && v.Job != 0) {
 							c.Fail("reassemble", "senddrop:field:"+d, "reassembled packet differs from the original in "+d, in)
 						}
 					}
